@@ -209,10 +209,19 @@ mod hooked {
                 .map(|x| x as usize)
                 .collect();
 
+        // free=1: every instrumented access is a scheduling point, also the talkback cells
+        // ("slot.*"), which are finer than the interleaving model: such runs are judged by the
+        // property checks on their trace alone.  Otherwise the slot accesses are pass-through, so
+        // that a step of the crate is a step of the model.
+        let free = crate::geti(&kv, "free", 0) == 1;
         let s = Sched::new(nth);
         {
             let s2 = Arc::clone(&s);
-            callbag::verif_hooks::set_hook(Some(Arc::new(move |_site: &'static str| yield_here(&s2))));
+            callbag::verif_hooks::set_hook(Some(Arc::new(move |site: &'static str| {
+                if free || !site.starts_with("slot.") {
+                    yield_here(&s2)
+                }
+            })));
         }
         let hs: Handlers = Arc::new(Mutex::new(HashMap::new()));
         let nmembers = if sys == "take" { 1 } else { nth };
